@@ -2497,6 +2497,22 @@ def witness67_reproduces():
     return reloaded.get_cds_motifs()[0].peptide_subclass == "" and features_text(text1) != features_text(text2)
 
 
+KNOWN_CLASS71 = "long_gene_name_wrapped"                      # C10-F71
+
+
+def witness71_reproduces():
+    """ a CDS whose /gene name has 52 or more characters and no blank (here 58) is wrapped by the GenBank writer, read back
+        with a blank at the wrap, the blank becomes '_': the name grows by one character per reload and the second
+        GenBank output differs from the first (the JSON route keeps the name) """
+    from antismash.common.secmet.features import CDSFeature
+    from antismash.common.secmet.locations import FeatureLocation as FL
+    record = plain_record()
+    record.add_cds_feature(CDSFeature(FL(0, 90, 1), translation="M" * 29, gene="g" * 58))
+    _bio, text1, reloaded = roundtrip_genbank(record)
+    _bio2, text2 = write_genbank(reloaded)
+    return reloaded.get_cds_features()[0].gene == "g" * 51 + "_" + "g" * 7 and features_text(text1) != features_text(text2)
+
+
 def witness68_reproduces():
     """ a reverse-strand prepeptide with leader and tail on the single-exon gene [90:180](-) comes back with the location
         join{[150:180](-), [120:150](-), [90:120](-)} """
@@ -3024,7 +3040,7 @@ def run(chk):
     # RULE), the recorded witnesses are replayed; a witness of a class that is NOT listed is a counterexample
     for cls, witness in ((KNOWN_CLASS66, witness66_reproduces), (KNOWN_CLASS67, witness67_reproduces),
                          (KNOWN_CLASS68, witness68_reproduces), (KNOWN_CLASS69, witness69_reproduces),
-                         (KNOWN_CLASS70, witness70_reproduces)):
+                         (KNOWN_CLASS70, witness70_reproduces), (KNOWN_CLASS71, witness71_reproduces)):
         found = known_entry(cls)
         chk.evaluations += 1
         if not reproduces(witness):
